@@ -141,6 +141,11 @@ func (s *Script) litDecls() string {
 		n := s.lits[v]
 		sb.WriteString(fmt.Sprintf("(declare-const %s B) ; %q\n", n, v))
 		sb.WriteString(fmt.Sprintf("(assert (= (blen %s) %d))\n", n, len(v)))
+		if len(v) <= 16 {
+			for k := 0; k < len(v); k++ {
+				sb.WriteString(fmt.Sprintf("(assert (= (at %s %d) %d))\n", n, k, v[k]))
+			}
+		}
 		names = append(names, n)
 	}
 	if len(names) > 1 {
@@ -352,6 +357,15 @@ const preludeBytesAbs = `(declare-sort B 0)
 (assert (forall ((x B)) (! (= (cat x eps) x) :pattern ((cat x eps)))))
 (assert (forall ((x B)) (! (= (cat eps x) x) :pattern ((cat eps x)))))
 (assert (forall ((x B) (y B) (z B)) (! (= (cat (cat x y) z) (cat x (cat y z))) :pattern ((cat (cat x y) z)))))
+(declare-fun sub (B Int Int) B)
+(declare-fun at (B Int) Int)
+(declare-fun chr (Int) B)
+(assert (forall ((s B) (i Int) (j Int)) (! (=> (and (<= 0 i) (<= i j) (<= j (blen s))) (= (blen (sub s i j)) (- j i))) :pattern ((sub s i j)))))
+(assert (forall ((s B) (i Int) (j Int) (k Int)) (! (=> (and (<= 0 i) (<= i j) (<= j (blen s)) (<= 0 k) (< k (- j i))) (= (at (sub s i j) k) (at s (+ i k)))) :pattern ((at (sub s i j) k)))))
+(assert (forall ((s B)) (! (= (sub s 0 (blen s)) s) :pattern ((sub s 0 (blen s))))))
+(assert (forall ((x B) (y B) (k Int)) (! (= (at (cat x y) k) (ite (< k (blen x)) (at x k) (at y (- k (blen x))))) :pattern ((at (cat x y) k)))))
+(assert (forall ((s B) (k Int)) (! (=> (and (<= 0 k) (< k (blen s))) (and (<= 0 (at s k)) (<= (at s k) 255))) :pattern ((at s k)))))
+(assert (forall ((c Int)) (! (=> (and (<= 0 c) (<= c 255)) (and (= (blen (chr c)) 1) (= (at (chr c) 0) c))) :pattern ((chr c)))))
 `
 
 // Byte strings, counterexample encoding (cvc5 strings theory).
@@ -361,6 +375,9 @@ const preludeBytesStr = `(define-sort B () String)
 (define-fun cat ((x String) (y String)) String (str.++ x y))
 (define-fun blen ((x String)) Int (str.len x))
 (define-fun eps () String "")
+(define-fun sub ((s String) (i Int) (j Int)) String (str.substr s i (- j i)))
+(define-fun at ((s String) (i Int)) Int (str.to_code (str.at s i)))
+(define-fun chr ((c Int)) String (str.from_code c))
 `
 
 const preludeCommon = `(declare-datatypes ((NB 0)) (((mk (isnil Bool) (val B)))))
@@ -381,6 +398,9 @@ const preludeCommon = `(declare-datatypes ((NB 0)) (((mk (isnil Bool) (val B))))
 (declare-fun flt (F64 F64) Bool)
 (declare-fun fle (F64 F64) Bool)
 (declare-fun feq (F64 F64) Bool)
+(assert (forall ((x F64) (y F64)) (! (= (flt (fneg x) (fneg y)) (flt y x)) :pattern ((flt (fneg x) (fneg y))))))
+(assert (forall ((x F64) (y F64)) (! (= (feq (fneg x) (fneg y)) (feq x y)) :pattern ((feq (fneg x) (fneg y))))))
+(assert (forall ((x F64)) (! (= (fneg (fneg x)) x) :pattern ((fneg (fneg x))))))
 (declare-fun i2f (Int) F64)
 (declare-fun f2i (F64) Int)
 (declare-fun f32 (F64) F64)
@@ -388,9 +408,6 @@ const preludeCommon = `(declare-datatypes ((NB 0)) (((mk (isnil Bool) (val B))))
 (assert (forall ((x F64) (y F64)) (! (= (fle x y) (or (flt x y) (feq x y))) :pattern ((fle x y)))))
 (define-fun tdiv ((a Int) (b Int)) Int (ite (>= a 0) (ite (> b 0) (div a b) (- (div a (- b)))) (ite (> b 0) (- (div (- a) b)) (div (- a) (- b)))))
 (define-fun tmod ((a Int) (b Int)) Int (- a (* b (tdiv a b))))
-(declare-fun sub (B Int Int) B)
-(declare-fun at (B Int) Int)
-(declare-fun chr (Int) B)
 (declare-fun implements (Int Int) Bool)
 ; membership of a byte string in the first n elements (from offset o) of an element array
 (declare-fun mem ((Array Int NB) Int Int B) Bool)
